@@ -390,23 +390,135 @@ def game_tables():
                 engine = engine_arg(em.group(0))
         mods.append(dict(id=mod, name="(hand-written module)", port=port or 0, proto=proto, engine=engine,
                          gather="ttT" if proto == "valve" else "-"))
+    mods += minecraft_module_rows(gdir, defs)
+    for r in defs + mods:
+        r.setdefault("port2", r["port"])
+        r["hand"] = r["name"] == "(hand-written module)"
     return defs, mods
+
+
+def rs_fn_bodies(src):
+    """name -> body text of every `fn name(…) … { … }` of a source file"""
+    out = {}
+    for m in re.finditer(r"\bfn\s+(\w+)\s*\(", src):
+        i = src.find("{", m.end())
+        if i < 0:
+            continue
+        depth, j = 1, i + 1
+        while depth and j < len(src):
+            depth += {"{": 1, "}": -1}.get(src[j], 0)
+            j += 1
+        out[m.group(1)] = src[i:j]
+    return out
+
+
+def minecraft_module_rows(gdir, defs):
+    """games/minecraft/mod.rs has one function per variant; the row of a definition is the function a caller of the module
+    uses for that game (`query`, `query_java`, `query_bedrock`, `query_legacy_specific`) with the default port that function
+    applies (`port_or_java_default` / `port_or_bedrock_default`).  `query` (auto-detect) probes Java, Bedrock and the legacy
+    variants through the module's own functions: port = the default of the Java (and legacy) probes, port2 = the default of
+    the Bedrock probe."""
+    fp = os.path.join(gdir, "minecraft", "mod.rs")
+    if not os.path.exists(fp):
+        return []
+    bodies = rs_fn_bodies(re.sub(r"//[^\n]*", "", open(fp).read()))
+    defaults = {}
+    for name, body in bodies.items():
+        m = re.fullmatch(r"port_or_(\w+)_default", name)
+        km = re.search(r"port\.unwrap_or\(([0-9_]+)\)", body)
+        if m and km:
+            defaults[m.group(1)] = num(km.group(1))
+
+    def port_of(fn):
+        m = re.search(r"port_or_(\w+)_default\(port\)", bodies.get(fn, ""))
+        return defaults.get(m.group(1), 0) if m else 0
+    rows = []
+    for d in defs:
+        if not d["proto"].startswith("prop:Minecraft("):
+            continue
+        v = d["proto"][len("prop:Minecraft("):-1]
+        fn = {"None": "query", "Some(Server::Java)": "query_java", "Some(Server::Bedrock)": "query_bedrock"}.get(v)
+        if fn is None and v.startswith("Some(Server::Legacy("):
+            fn = "query_legacy_specific"
+        if fn is None or fn not in bodies:
+            continue
+        if fn == "query":
+            calls = re.findall(r"\b(query_\w+)\(address, port", bodies["query"])
+            ports = [port_of(c) for c in calls]
+            ok = calls == ["query_java", "query_bedrock", "query_legacy"] and ports[0] == ports[2]
+            port, port2 = (ports[0], ports[1]) if ok else (0, 0)
+        else:
+            port = port2 = port_of(fn)
+        rows.append(dict(id=d["id"], name="(hand-written module)", port=port, port2=port2, proto=d["proto"], engine="-", gather="-"))
+    return rows
+
+
+def proto_tag(d):
+    """the row's protocol and parameters as a term of the generated `ProtoTag` type (typed twin of proto/engine/gather)"""
+    p = d["proto"]
+    if p == "valve":
+        m = re.fullmatch(r"S:(\d+)(?::(\d+))?", d["engine"])
+        if m:
+            eng = f"(.source {m.group(1)} {'(some ' + m.group(2) + ')' if m.group(2) else 'none'})"
+        elif d["engine"] in ("G:0", "G:1"):
+            eng = f"(.goldSrc {'true' if d['engine'] == 'G:1' else 'false'})"
+        else:
+            return ".other"
+        g = d["gather"]
+        if not re.fullmatch(r"[ste][ste][TF]", g):
+            return ".other"
+        t = {"s": ".skip", "t": ".try_", "e": ".enforce"}
+        return f".valve {eng} {t[g[0]]} {t[g[1]]} {'true' if g[2] == 'T' else 'false'}"
+    simple = {"gs1": ".gs1", "gs2": ".gs2", "gs3": ".gs3", "quake1": ".quake1", "quake2": ".quake2", "quake3": ".quake3",
+              "unreal2": ".unreal2", "prop:Savage2": ".savage2", "prop:TheShip": ".theShip", "prop:FFOW": ".ffow",
+              "prop:JC2M": ".jc2m", "prop:Mindustry": ".mindustry", "prop:Eco": ".eco",
+              "prop:Minecraft(None)": ".minecraft .auto", "prop:Minecraft(Some(Server::Java))": ".minecraft .java",
+              "prop:Minecraft(Some(Server::Bedrock))": ".minecraft .bedrock",
+              "prop:Minecraft(Some(Server::Legacy(LegacyGroup::V1_6)))": ".minecraft .legacy16",
+              "prop:Minecraft(Some(Server::Legacy(LegacyGroup::V1_4)))": ".minecraft .legacy14",
+              "prop:Minecraft(Some(Server::Legacy(LegacyGroup::VB1_8)))": ".minecraft .legacyB18"}
+    return simple.get(p, ".other")
 
 
 def gen_games():
     defs, mods = game_tables()
 
     def row(d):
-        ok = not (d["proto"].startswith("?") or d["engine"].startswith("?") or d["gather"].startswith("?")) and d["port"] != 0
-        return f"  ⟨{lean_str(d['id'])}, {lean_str(d['name'])}, {d['port']}, {lean_str(d['proto'])}, {lean_str(d['engine'])}, {lean_str(d['gather'])}, {'true' if ok else 'false'}⟩"
+        tag = proto_tag(d)
+        ok = (not (d["proto"].startswith("?") or d["engine"].startswith("?") or d["gather"].startswith("?")) and d["port"] != 0
+              and d["port2"] != 0 and tag != ".other")
+        return (f"  ⟨{lean_str(d['id'])}, {lean_str(d['name'])}, {d['port']}, {lean_str(d['proto'])}, {lean_str(d['engine'])}, "
+                f"{lean_str(d['gather'])}, {'true' if ok else 'false'}, {d['port2']}, {'true' if d['hand'] else 'false'}, {tag}⟩")
     L = ["/- GENERATED by tools/xlate.py on every run — do not edit.",
          "   defs: the GAMES table of games/definitions.rs;  mods: every game_query_mod! invocation of",
          "   games/{valve,gamespy,quake,unreal2}.rs and the hand-written game modules (default port = their",
-         "   `port.unwrap_or(n)`).  engine/gather use the line protocol's argument syntax. -/",
+         "   `port.unwrap_or(n)`; the minecraft module: one row per definition id, the module function for that variant).",
+         "   engine/gather use the line protocol's argument syntax; `tag` is their typed twin. -/",
          "namespace Gd.Gen", "",
+         "/-- `GatherToggle` -/", "inductive Tog | skip | try_ | enforce", "  deriving Repr, DecidableEq", "",
+         "/-- `valve::Engine`: `Engine::new(a)` = `source a none`, `Engine::new_with_dedicated(a, d)` = `source a (some d)`,",
+         "`Engine::new_gold_src(f)` = `goldSrc f` -/",
+         "inductive EngineTag", "  | source (appid : Nat) (dedicated : Option Nat)", "  | goldSrc (force : Bool)", "  deriving Repr, DecidableEq", "",
+         "/-- the argument of `ProprietaryProtocol::Minecraft`: `None` = auto, `Some(Server::…)` -/",
+         "inductive McTag | auto | java | bedrock | legacy16 | legacy14 | legacyB18", "  deriving Repr, DecidableEq", "",
+         "/-- the `Protocol` of a row with its parameters (typed twin of the `proto` / `engine` / `gather` texts; for Valve rows the",
+         "gathering settings are the row's `GatheringSettings { players, rules, check_app_id }`) -/",
+         "inductive ProtoTag",
+         "  | valve (engine : EngineTag) (players rules : Tog) (checkAppId : Bool)",
+         "  | gs1 | gs2 | gs3 | quake1 | quake2 | quake3 | unreal2",
+         "  | savage2 | theShip | ffow | jc2m | mindustry | eco",
+         "  | minecraft (k : McTag)",
+         "  /-- a protocol or an expression outside the translator's grammar -/",
+         "  | other",
+         "  deriving Repr, DecidableEq", "",
          "structure GameRow where", "  id : String", "  name : String", "  port : Nat", "  proto : String", "  engine : String",
          "  gather : String",
-         "  /-- every expression of the row was in the translator's grammar -/", "  understood : Bool", "  deriving Repr, DecidableEq", "",
+         "  /-- every expression of the row was in the translator's grammar -/", "  understood : Bool",
+         "  /-- second default port of the row: for the Minecraft auto-detect module function the default of its Bedrock probe;",
+         "  equal to `port` for every other row -/", "  port2 : Nat",
+         "  /-- a hand-written game module (not a `game_query_mod!` invocation) -/", "  hand : Bool",
+         "  tag : ProtoTag",
+         "  deriving Repr, DecidableEq", "",
          "def gameDefs : List GameRow := [", ",\n".join(row(d) for d in defs), "]", "",
          "def gameMods : List GameRow := [", ",\n".join(row(d) for d in mods), "]", "",
          "/-- (id, name) of every shipped definition, as byte strings (for the id-naming checker, C20) -/",
@@ -426,22 +538,25 @@ def gen_games():
         if d["proto"] == "valve" and d["name"] != "(hand-written module)":
             H.append(f'        "{d["id"]}" => gamedig::games::{d["id"]}::query(ip, port),')
     H += ['        "battalion1944" => gamedig::games::battalion1944::query(ip, port),', "        _ => return None,", "    })", "}", ""]
-    # every other dedicated module, result in the protocol-independent canonical form (sorted JSON of as_original())
-    H += ["pub fn any_module(id: &str, ip: &IpAddr, port: Option<u16>) -> Option<gamedig::GDResult<crate::games::AnyResp>> {",
-          "    use crate::games::canon_any as c;", "    Some(match id {"]
-    for d in mods:
-        if d["proto"] != "valve" and d["name"] != "(hand-written module)":
-            H.append(f'        "{d["id"]}" => gamedig::games::{d["id"]}::query(ip, port).map(|r| c(&r)),')
-    for mod in ("theship", "ffow", "jc2m", "savage2"):
-        H.append(f'        "{mod}" => gamedig::games::{mod}::query(ip, port).map(|r| c(&r)),')
-    H += ['        "mindustry" => gamedig::games::mindustry::query(ip, port, &None).map(|r| c(&r)),',
-          '        "minecraft" => gamedig::games::minecraft::query(ip, port).map(|r| c(&r)),',
-          '        "minecraftjava" => gamedig::games::minecraft::query_java(ip, port, None).map(|r| c(&r)),',
-          '        "minecraftbedrock" | "minecraftpocket" => gamedig::games::minecraft::query_bedrock(ip, port).map(|r| c(&r)),',
-          '        "minecraftlegacy16" => gamedig::games::minecraft::query_legacy_specific(gamedig::games::minecraft::LegacyGroup::V1_6, ip, port).map(|r| c(&r)),',
-          '        "minecraftlegacy14" => gamedig::games::minecraft::query_legacy_specific(gamedig::games::minecraft::LegacyGroup::V1_4, ip, port).map(|r| c(&r)),',
-          '        "minecraftlegacyb18" => gamedig::games::minecraft::query_legacy_specific(gamedig::games::minecraft::LegacyGroup::VB1_8, ip, port).map(|r| c(&r)),',
-          "        _ => return None,", "    })", "}", ""]
+    # every other dedicated module: result in the protocol-independent canonical form (sorted JSON of as_original()) for the
+    # three-path oracle, and printed per family (harness/src/dispatch.rs) for the correspondence with the dispatch model
+    for fn, ty, conv in (("any_module", "crate::games::AnyResp", "crate::games::canon_any"),
+                         ("disp_module", "crate::dispatch::DispResp", "crate::dispatch::canon")):
+        H += [f"pub fn {fn}(id: &str, ip: &IpAddr, port: Option<u16>) -> Option<gamedig::GDResult<{ty}>> {{",
+              f"    use {conv} as c;", "    Some(match id {"]
+        for d in mods:
+            if d["proto"] != "valve" and d["name"] != "(hand-written module)":
+                H.append(f'        "{d["id"]}" => gamedig::games::{d["id"]}::query(ip, port).map(|r| c(&r)),')
+        for mod in ("theship", "ffow", "jc2m", "savage2"):
+            H.append(f'        "{mod}" => gamedig::games::{mod}::query(ip, port).map(|r| c(&r)),')
+        H += ['        "mindustry" => gamedig::games::mindustry::query(ip, port, &None).map(|r| c(&r)),',
+              '        "minecraft" => gamedig::games::minecraft::query(ip, port).map(|r| c(&r)),',
+              '        "minecraftjava" => gamedig::games::minecraft::query_java(ip, port, None).map(|r| c(&r)),',
+              '        "minecraftbedrock" | "minecraftpocket" => gamedig::games::minecraft::query_bedrock(ip, port).map(|r| c(&r)),',
+              '        "minecraftlegacy16" => gamedig::games::minecraft::query_legacy_specific(gamedig::games::minecraft::LegacyGroup::V1_6, ip, port).map(|r| c(&r)),',
+              '        "minecraftlegacy14" => gamedig::games::minecraft::query_legacy_specific(gamedig::games::minecraft::LegacyGroup::V1_4, ip, port).map(|r| c(&r)),',
+              '        "minecraftlegacyb18" => gamedig::games::minecraft::query_legacy_specific(gamedig::games::minecraft::LegacyGroup::VB1_8, ip, port).map(|r| c(&r)),',
+              "        _ => return None,", "    })", "}", ""]
     write_if_changed(os.path.join(V, "harness", "src", "gen_games.rs"), "\n".join(H))
     return defs, mods
 
